@@ -16,7 +16,8 @@ Record cl_spec := { cl_name : bytes; cl_type : nat (* 0 tm, 1 bsc, 2 eth *); cl_
 
 Record iter_spec := { is_clients : list cl_spec; is_commit : list triple; is_acks : list triple;
                       is_receipts : list triple; is_nextseq : list triple; is_relayers : list bytes;
-                      is_bypath : list (bytes * bytes) }.
+                      is_bypath : list (bytes * bytes);
+                      is_prelayers : list triple (* SetPacketRelayer entries; entry i holds the value "relayer-<i>" *) }.
 
 (** a stored entry: (key, value); a recorded write: (tag, entry) with tag 1
     processed time, 2 iteration key, 3 recent signer, 4 pending validators,
@@ -33,7 +34,8 @@ Record iter_obs := { io_base : list bytes; io_keys : list bytes; io_cons : nat *
                      io_clients : nat * list bytes; io_per : list cl_obs;
                      io_commit : nat * list triple; io_acks : nat * list triple; io_receipts : nat * list triple;
                      io_nextseq : nat * list triple; io_relayers : nat * nat;
-                     io_allmeta : nat * list (bytes * list entry); io_bypath : list (nat * list triple) }.
+                     io_allmeta : nat * list (bytes * list entry); io_bypath : list (nat * list triple);
+                     io_prelayers : nat * list bytes (* GetPacketRelayer of every written triple, in order *) }.
 
 Inductive ccase :=
 | CAbi (ty : nat) (fields : list fval) (enc_class : nat) (enc : bytes) (dec_class : nat) (dec : list fval)
@@ -142,7 +144,8 @@ Definition written_keys (s : iter_spec) : list bytes :=
   flat_map client_keys (is_clients s)
   ++ map packet_commitment_key (is_commit s) ++ map packet_ack_key (is_acks s) ++ map packet_receipt_key (is_receipts s)
   ++ map (fun t => next_seq_send_key (t_src t) (t_dst t)) (is_nextseq s)
-  ++ map relayer_key (is_relayers s).
+  ++ map relayer_key (is_relayers s)
+  ++ map packet_relayer_key (is_prelayers s).
 
 Definition with_prefix (p : bytes) (l : list bytes) : list bytes := filter (is_prefix p) l.
 
@@ -385,6 +388,13 @@ Fixpoint zip_monitor (cs : list cl_spec) (os : list cl_obs) : list nat :=
   | _, _ => [43%nat]
   end.
 
+(** what GetPacketRelayer must return for entry i: the value of the LAST write to the same triple *)
+Definition prelayer_value (i : nat) : bytes := B "relayer-" ++ dec (N.of_nat i).
+Definition prelayers_expected (l : list triple) : list bytes :=
+  map (fun it => let t := snd it in
+                 fold_left (fun acc ju => if triple_eqb (snd ju) t then prelayer_value (fst ju) else acc) (number 0 l) [])
+      (number 0 l).
+
 Definition case_monitor (c : ccase) : list nat :=
   match c with
   | CAbi ty v ec e dc d rc r sha =>
@@ -436,6 +446,8 @@ Definition case_monitor (c : ccase) : list nat :=
                                   (filter (fun t => bytes_eqb (t_src t) (fst sd) && bytes_eqb (t_dst t) (snd sd)) (is_commit s)) (snd po))
                      (combine (is_bypath s) (io_bypath o))
              && Nat.eqb (length (is_bypath s)) (length (io_bypath o)) then [] else [55%nat])
+      (* a packet-relayer entry is read back under the triple it was written for *)
+      ++ (if Nat.eqb (fst (io_prelayers o)) 0 && list_eqb bytes_eqb (prelayers_expected (is_prelayers s)) (snd (io_prelayers o)) then [] else [57%nat])
   end.
 
 (** key injectivity / disjointness over all PAIRS of key cases of a shard:
